@@ -576,7 +576,7 @@ def shards(tier, seed):
         sh.append({"kind": "history", "backend": "sympy", "first": first, "seed": seed, "L": 2 if tier == "quick" else 3})
     sh.append({"kind": "sampled", "seed": seed, "tier": tier})
     CH = 10 ** 7  # chunk size used by the sampling loops (a local constant of the implementation)
-    for shots in ((CH - 1, CH, CH + 1, 2 * CH) if tier == "quick" else (3, 64, 65, CH - 1, CH, CH + 1, 2 * CH - 1, 2 * CH, 2 * CH + 1, 3 * CH)):
+    for shots in ((CH - 1, CH, CH + 1, 2 * CH) if tier == "quick" else (9, 65, CH - 1, CH, CH + 1, 2 * CH - 1, 2 * CH, 2 * CH + 1, 3 * CH)):
         sh.append({"kind": "sampled_bulk", "seed": seed, "n_shots": shots})
     # heaviest shards first (tail latency): bulk draws, then the slow sympy backend, then everything else in order
     rank = lambda x: (0, -x["n_shots"]) if x["kind"] == "sampled_bulk" else (1, 0) if x.get("backend") == "sympy" else (2, 0)
